@@ -19,7 +19,10 @@
 // function literals anywhere are instrumented like the method they appear in.  `else if` chains are
 // rewritten to `else { if }` so that the inner header can get a point.
 //
-// verifPoint / verifWriter are provided by the harness (//go:build verif).  Standard library only.
+// Every instrumented method that (transitively) touches the filesystem also starts with
+// verifEnter("<Method>", v.Root); defer verifExit("<Method>", v.Root).
+//
+// verifPoint / verifWriter / verifEnter / verifExit are provided by the harness (//go:build verif).  Standard library only.
 //
 // usage: instrument -in unix_volume.go -out instrumented.go [-labels labels.json] [-type UnixVolume]
 package main
@@ -431,6 +434,20 @@ func main() {
 		recv := recvOf(fd, *typeName)
 		c := &ctx{method: n, recv: recv, handles: in.findHandles(fd, recv)}
 		in.block(c, fd.Body)
+		if in.interest[n] {
+			// verifEnter("M", v.Root); defer verifExit("M", v.Root): lets the harness wait until no
+			// call of M is in progress (WriteBlock runs in a goroutine that outlives a cancelled request)
+			call := func(fn string) *ast.CallExpr {
+				return &ast.CallExpr{Fun: ast.NewIdent(fn), Args: []ast.Expr{
+					&ast.BasicLit{Kind: token.STRING, Value: strconv.Quote(n)},
+					&ast.SelectorExpr{X: ast.NewIdent(recv), Sel: ast.NewIdent("Root")},
+				}}
+			}
+			fd.Body.List = append([]ast.Stmt{
+				&ast.ExprStmt{X: call("verifEnter")},
+				&ast.DeferStmt{Call: call("verifExit")},
+			}, fd.Body.List...)
+		}
 	}
 	out, err := os.Create(*outPath)
 	if err != nil {
